@@ -24,6 +24,11 @@ for seed in seeds:
         bad += 1
         print("  first diff op:", r["diff"]["op"]); print("  impl :", r["diff"]["impl"][:600]); print("  model:", r["diff"]["model"][:600])
         print("  seq:"); [print("    " + l) for l in r["diff"]["seq"][-40:]]
+    for f in (r.get("spec_failures") or []):
+        if "cause=" in f["detail"]:
+            continue
+        bad += 1
+        print("  REFERENCE", f["assertion"], f["detail"][:300]); [print("      " + l) for l in f["ops"][-40:]]
     sigs = {}
     for f in fails:
         sigs.setdefault(f["assertion"], []).append(f)
